@@ -1,0 +1,31 @@
+//go:build verif
+
+package rules_lib
+
+import "sort"
+
+// VerifRuleTypes lists the registered rule types in Order for the verification
+// harness (build tag verif only).
+func VerifRuleTypes() []*EventRuleType {
+	list := make([]*EventRuleType, 0, len(ruleTypes))
+	for _, t := range ruleTypes {
+		list = append(list, t)
+	}
+	sort.Slice(list, func(i, j int) bool {
+		if list[i].Order != list[j].Order {
+			return list[i].Order < list[j].Order
+		}
+		return list[i].Name < list[j].Name
+	})
+	return list
+}
+
+// VerifDecoderNames lists the registered value decoder names, sorted.
+func VerifDecoderNames() []string {
+	names := make([]string, 0, len(valueDecoders))
+	for name := range valueDecoders {
+		names = append(names, name)
+	}
+	sort.Strings(names)
+	return names
+}
